@@ -21,7 +21,8 @@ MANIFEST = {
     "note": "trusted: Lean kernel + propext/Classical.choice/Quot.sound; strconv.Unquote/UnquoteChar, token.FileSet.Position, fmt and "
             "qiniu/x/errors are assumed not to panic (their results are parameters / not modelled); hypothesis of C27_new_total: a CHAR "
             "token has >= 2 bytes (true of the scanner whenever it reports no error: scanRune; checked on every harness case); RetProc "
-            "parameters of tpl.New/tpl.NewEx (user callbacks; retProcs panics by design on an odd count or a non-string rule name: documented "
+            "a grammar text on which the real scanner itself panics yields no tokens for the model and is evaluated by the no-panic oracle only "
+            "(case `tplsrc <hex>`, no model line); parameters of tpl.New/tpl.NewEx (user callbacks; retProcs panics by design on an odd count or a non-string rule name: documented "
             "programmer errors, excluded explicitly) are outside the property; error positions/messages and relocatePos arithmetic (plain "
             "int additions on a non-nil *Position) are not modelled; hand-written "
             "compile/First model tied by the differential run only.",
@@ -31,7 +32,8 @@ MANIFEST = {
 
 RULE = ("fixed grammars; every byte 0..255 as \\xHH, \\OOO, raw byte and \\u00HH inside \"..\", '..' and `..`; escape table; every pair of "
         "ASCII punctuation characters as a string literal; every token spelling, spelling+'=', doubled last char, truncated, blank-prefixed; "
-        "repo grammar corpus; random multi-rule grammars (1-5 rules over 6 names, left recursion, recursion under a choice, duplicates, "
+        "~65 valid and malformed numeric lexemes (0, 089, 0b2, 0o9, 0xg, 1__2, 1e+, .5, 0x1p, 1i, 3r, 10km, long digit runs ...) at offset 0, after "
+        "other text, glued to identifiers/strings/operators and separated, also in random grammars and the damage alphabet; repo grammar corpus; random multi-rule grammars (1-5 rules over 6 names, left recursion, recursion under a choice, duplicates, "
         "undefined and builtin identifiers, => {..} blocks), character-level damaged grammars, random escape/punctuation literals; "
         "for every tplnew case a tplnewex case (real tpl.NewEx with varying line/col incl. 0, negative and 2^40, ShowConflict on and off, "
         "and real tpl.FromFile; dynamic error types compared), plus the same text as []byte, io.Reader, *bytes.Buffer and as unreadable "
